@@ -104,54 +104,94 @@ def mkdofpv (pmask : Nat) (tbl : List Row) (nas : SetSpec) (req : Request) (stri
         let dof ← expanddof req
         mkdofpvKeys (sub.map fun r => key (r.1, r.2.1)) dof strict
 
-/-! ### make_uset: the `nasset` column -/
+/-! ### make_uset: the `nasset` column and the coordinate columns -/
 
-/-- the while-loop that spreads per-request-row `nasset` values over the expanded rows. -/
-def spread : Nat → List (Nat × Nat) → List Nat → Except Err (List Nat)
+/-- the while-loop that spreads per-request-row values over the expanded rows; the same loop
+runs for the `nasset` column (`six v` = six copies of `v`) and for the `x y z` columns (`six v` =
+the location row followed by the five rows of the basic coordinate system). -/
+def spreadG {β : Type} (six : β → List β) : Nat → List (Nat × Nat) → List β → Except Err (List β)
   | 0, _, _ => .ok []
   | _, [], _ => .ok []
-  | fuel + 1, (_, arg) :: rest, nas =>
+  | fuel + 1, (_, arg) :: rest, vals =>
       if arg = 123456 then
-        match nas with
-        | v :: nas' => do
-            let t ← spread fuel rest nas'
-            .ok (List.replicate 6 v ++ t)
+        match vals with
+        | v :: vals' => do
+            let t ← spreadG six fuel rest vals'
+            .ok (six v ++ t)
         | [] => .error .index
       else if arg = 1 then
-        if nas.length < 6 then .error .value
+        if vals.length < 6 then .error .value
         else do
-          let t ← spread fuel (rest.drop 5) (nas.drop 6)
-          .ok (nas.take 6 ++ t)
+          let t ← spreadG six fuel (rest.drop 5) (vals.drop 6)
+          .ok (vals.take 6 ++ t)
       else
-        match nas with
-        | v :: nas' => do
-            let t ← spread fuel rest nas'
+        match vals with
+        | v :: vals' => do
+            let t ← spreadG six fuel rest vals'
             .ok (v :: t)
         | [] => .error .index
 
-/-- `make_uset(dof, nasset)`: rows `(id, dof, word)`.  `rows1d` = the request was 1-D ids
-(`_ensure_2cols` then gives every id the argument 123456). -/
+def spread : Nat → List (Nat × Nat) → List Nat → Except Err (List Nat) :=
+  spreadG (fun v => List.replicate 6 v)
+
+/-- the request after `_ensure_2cols` (1-D ids get the argument 123456) -/
+def rows2 : Request → List (Nat × Nat)
+  | .ids l _ => l.map (fun i => (i, 123456))
+  | .rows r => r
+
+def nrows : Request → Nat
+  | .ids l _ => l.length
+  | .rows r => r.length
+
+/-- `expanddof(dof)` followed by the check "each GRID must have all DOF 1-6". -/
+def makeUsetDof (req : Request) : Except Err (List (Nat × Nat)) := do
+  let edof ← expanddof (match req with | .ids l _ => .ids l true | .rows r => .rows r)
+  let gdof := (edof.filter (fun p => decide (0 < p.2))).map (·.2)
+  let n := gdof.length / 6
+  if gdof ≠ [] ∧ (n * 6 ≠ gdof.length ∨
+      gdof ≠ (List.replicate n [1, 2, 3, 4, 5, 6]).flatten) then .error .value
+  else .ok edof
+
+/-- the `nasset` column -/
+def makeUsetWords (req : Request) (edof : List (Nat × Nat)) (nas : List Nat) :
+    Except Err (List Nat) :=
+  match nas with
+  | [v] => .ok (List.replicate edof.length v)
+  | _ => if edof.length = nrows req then .ok nas
+         else do
+           let w ← spread (rows2 req).length (rows2 req) nas
+           -- rows the loop never reaches keep the initial 0
+           .ok (w ++ List.replicate (edof.length - w.length) 0)
+
+/-- `make_uset(dof, nasset)`: rows `(id, dof, word)`. -/
 def makeUset (req : Request) (nas : List Nat) : Except Err (List Row) :=
-  let nrows := match req with | .ids l _ => l.length | .rows r => r.length
-  if nas.length ≠ 1 ∧ nas.length ≠ nrows then .error .value
+  if nas.length ≠ 1 ∧ nas.length ≠ nrows req then .error .value
   else do
-    let edof ← expanddof (match req with | .ids l _ => .ids l true | .rows r => .rows r)
-    let gdof := (edof.filter (fun p => decide (0 < p.2))).map (·.2)
-    let n := gdof.length / 6
-    if gdof ≠ [] ∧ (n * 6 ≠ gdof.length ∨
-        gdof ≠ (List.replicate n [1, 2, 3, 4, 5, 6]).flatten) then .error .value
-    else
-      let rows2 := match req with | .ids l _ => l.map (fun i => (i, 123456)) | .rows r => r
-      let words : Except Err (List Nat) :=
-        match nas with
-        | [v] => .ok (List.replicate edof.length v)
-        | _ => if edof.length = nrows then .ok nas
-               else do
-                 let w ← spread rows2.length rows2 nas
-                 -- rows the loop never reaches keep the initial 0
-                 .ok (w ++ List.replicate (edof.length - w.length) 0)
-      do
-        let w ← words
-        .ok ((edof.zip w).map fun (p, v) => (p.1, p.2, v))
+    let edof ← makeUsetDof req
+    let w ← makeUsetWords req edof nas
+    .ok ((edof.zip w).map fun (p, v) => (p.1, p.2, v))
+
+abbrev Xyz := Int × Int × Int
+
+/-- the default coordinate-system rows of a grid given by one request row -/
+def basicRows : List Xyz := [(0, 1, 0), (0, 0, 0), (1, 0, 0), (0, 1, 0), (0, 0, 1)]
+
+/-- the `x y z` columns for `xyz` given (`none` = NaN, a row the loop never reaches) -/
+def makeUsetCoords (req : Request) (edof : List (Nat × Nat)) (xyz : List Xyz) :
+    Except Err (List (Option Xyz)) :=
+  if edof.length = nrows req then .ok (xyz.map some)
+  else do
+    let w ← spreadG (fun v => v :: basicRows) (rows2 req).length (rows2 req) xyz
+    .ok (w.map some ++ List.replicate (edof.length - w.length) none)
+
+/-- `make_uset(dof, nasset, xyz)`: rows `((id, dof, word), coordinates)`. -/
+def makeUsetXyz (req : Request) (nas : List Nat) (xyz : List Xyz) :
+    Except Err (List (Row × Option Xyz)) :=
+  if xyz.length ≠ nrows req then .error .value
+  else do
+    let tbl ← makeUset req nas
+    let edof ← makeUsetDof req
+    let c ← makeUsetCoords req edof xyz
+    .ok (tbl.zip c)
 
 end PyYetiVerif.Uset
